@@ -24,6 +24,11 @@ def patches_for(pid):
         out.append((os.path.basename(p)[:-6], p, "mutant"))
     for d in sorted(glob.glob(os.path.join(VERIF, "seeded", f"{pid}-*"))):
         if os.path.exists(os.path.join(d, "patch.diff")):
+            try:
+                if not json.load(open(os.path.join(d, "meta.json"))).get("applies_to_current_tree", True):
+                    continue        # a later repair rewrote the code this seed changes (reason in its meta.json)
+            except (OSError, ValueError):
+                pass
             out.append((os.path.basename(d), os.path.join(d, "patch.diff"), "seed"))
     # changes seeded for another property that this property's rules are expected to report
     # (an evenly spread sample of them: the full cross product is what tools/seed_matrix.py computes, offline, into
